@@ -47,9 +47,9 @@ func CheckC06(c *ProgramCase, st *Stats) error {
 
 func init() {
 	Register("C05",
-		"programs-as-data: programs whose length is drawn from a length class (1-7 / 8-25 / 26-60 operations; thorough up to 200; about 26 on average, so lists cross the capacity boundaries 1-2-4-...-64 repeatedly) with raw integer arguments interpreted against a reference heap of sequences (scalars by value, containers by reference, acyclicity guard) and against the library: NewList/NewListOf/NewListFrom (7 slice flavours), Add, Insert(i in -2..n+2), Replace/Delete/Get(i in -2..n+1), multi-index Delete (distinct valid), Pop, Clear, Reverse, Sort (only inside C17's domain), SubList(start in -1..n+2, end in -n-2..n+2), Concat (any live list, itself included), typed-getter matrix, Contains/IndexOf, plus object operations on nested objects. After EVERY step every container ever created is compared (Count, Empty, TypeOf, Get with identity for containers, Slice; panics exactly when the model says the argument is outside the domain). Non-trivial = a derivation (SubList/Concat/NewListFrom) followed by a mutation, or a write to a container that is referenced from another container, or at least one expected panic. Distinct = distinct FNV-64a hash of the program JSON.",
+		"programs-as-data: programs whose length is drawn from a length class (1-7 / 8-25 / 26-60 operations; thorough up to 200; about 26 on average, so lists cross the capacity boundaries 1-2-4-...-64 repeatedly) with raw integer arguments interpreted against a reference heap of sequences (scalars by value, containers by reference, acyclicity guard) and against the library: NewList/NewListOf/NewListFrom (7 slice flavours), Add, Insert(i in -2..n+2), Replace/Delete/Get(i in -2..n+1), multi-index Delete (distinct valid), Pop, Clear, Reverse, Sort (only inside C17's domain), SubList(start in -1..n+2, end in -n-2..n+2), Concat (any live list, itself included), typed-getter matrix, Contains/IndexOf, plus object operations on nested objects; compound steps: sortrun, stack (Pop then Add), bulk (63-4099 cheap scalars added at once, so that the rest of the program works on a list far beyond block sizes; about one program in twelve) ; SubList is a suffix (end 0 or n) or a prefix in three steps of five; one mutating step in four goes to the receiver or the result of the most recent SubList/Concat. After every step IndexOf/Contains of the first, middle and last element of every list must agree with a scan of the model. After EVERY step every container ever created is compared (Count, Empty, TypeOf, Get with identity for containers, Slice; panics exactly when the model says the argument is outside the domain). Non-trivial = a derivation (SubList/Concat/NewListFrom) followed by a mutation, or a write to a container that is referenced from another container, or at least one expected panic. Distinct = distinct FNV-64a hash of the program JSON.",
 		GenC05, CheckC05)
 	Register("C06",
-		"programs-as-data as C05 with an object-heavy mix: NewObject/NewObjectFrom (7 map flavours), Set (0-4 pairs, repeated key in one call, odd argument count, non-string key at a drawn position), Unset (present/missing/several), Clear, Merge (any live object, itself included), Pluck (present/missing/repeated keys), Get/typed-getter/TypeOf/KeyExists matrix for a present and an absent key, Contains/KeyOf; keys from a pool with the empty key, '.', '#', quotes, newline, non-ASCII, U+FFFD, long; in one program of five every key and string value is re-encoded to bytes that are not valid UTF-8 (distinct ill-formed keys are distinct fields). After EVERY step every container is compared (Count, Empty, Keys as set, Values as multiset, Dict, KeyExists, TypeOf, Get with identity). Non-trivial = a Merge with overlapping keys, a Set with a repeated key, an expected panic, or a write to a container referenced from another container. Distinct = distinct FNV-64a hash of the program JSON.",
+		"programs-as-data as C05 with an object-heavy mix: NewObject/NewObjectFrom (7 map flavours), Set (0-4 pairs, repeated key in one call, odd argument count, non-string key at a drawn position), Unset (present/missing/several), Clear, Merge (any live object, itself included), bigset (65-300 fields at once), unsetmany (all but 0-7 fields of a live object removed by one call, key by key, or after overwriting with nil), Pluck (present/missing/repeated keys), Get/typed-getter/TypeOf/KeyExists matrix for a present and an absent key, Contains/KeyOf; keys from a pool with the empty key, '.', '#', quotes, newline, non-ASCII, U+FFFD, long; in one program of five every key and string value is re-encoded to bytes that are not valid UTF-8 (distinct ill-formed keys are distinct fields). After EVERY step every container is compared (Count, Empty, Keys as set, Values as multiset, Dict, KeyExists, TypeOf, Get with identity; Contains/KeyOf of the values under the first and last key). Non-trivial = a Merge with overlapping keys, a Set with a repeated key, an expected panic, or a write to a container referenced from another container. Distinct = distinct FNV-64a hash of the program JSON.",
 		GenC06, CheckC06)
 }
